@@ -7,8 +7,8 @@ Everything is about the model `PraatModel/Audio.lean`; times are exact rationals
 samples unbounded `Int`s restricted by `InRange`, recordings of any length.
 
 The time-level theorems (section 4) hold for ALL rational times: a time outside the recording addresses its first / last
-sample boundary (defect C16-2, /repo 300c9d2: `sampleIndex_nearest`, `sampleIndex_nonpos`, `sampleIndex_beyond`), and a
-time range that ends before it starts is rejected with `ArgumentError` (defect C16-3, /repo 0a07868: `reversed_rejected`,
+sample boundary (defect C16-2, /repo 3f424d1: `sampleIndex_nearest`, `sampleIndex_nonpos`, `sampleIndex_beyond`), and a
+time range that ends before it starts is rejected with `ArgumentError` (defect C16-3, /repo 906b45b: `reversed_rejected`,
 `query_reversed_rejected`).  No window hypothesis (`0 ≤ t ≤ duration`) is left; `¬ e < s` in a statement is the condition
 under which the call returns, its complement being `reversed_rejected`.
 -/
@@ -772,7 +772,7 @@ theorem getB_whole (w : Nat) (hw : 0 < w) (f : List UInt8) (hf : w ∣ f.length)
 
 /-! ### the same at time level: EVERY time addresses a whole sample inside the recording
 
-Since the repair 300c9d2 (`_getIndexAtTime` clamps the sample index into `[0, number of samples]`) the
+Since the repair 3f424d1 (`_getIndexAtTime` clamps the sample index into `[0, number of samples]`) the
 following hold for **all** rational times — negative, beyond the end, off the sample grid — with no
 window hypothesis; `wv.sampleIndex t` is the boundary nearest to `t` (`sampleIndex_nearest`). -/
 
@@ -853,7 +853,7 @@ theorem replaceSegmentRaw_samples (wv : Wav) (hwv : Whole wv) (s e : QTime)
   show List.take (wv.sampleIndex s) (_ ++ _) ++ unpack wv.width g ++ List.drop (wv.sampleIndex s) (_ ++ _) = _
   rw [List.take_left' htl, List.drop_left' htl]
 
-/-! ### the operations as they are called: the time range is validated first (commit 0a07868)
+/-! ### the operations as they are called: the time range is validated first (commit 906b45b)
 
 `getFrames`, `getSamples`, `getSubwav`, `deleteSegment`, `replaceSegment` raise `ArgumentError` for a range whose
 start lies after its end — before anything is changed (`reversed_rejected`) — and otherwise do what the
@@ -1109,7 +1109,7 @@ theorem duration_samples (wv : Wav) (hwv : Whole wv) : QTime.eqv wv.duration ⟨
 
 /-! ## 6b. times outside the recording, and a start after the end
 
-Before the repair 300c9d2 a negative time became a negative Python slice bound (counted from the END of the
+Before the repair 3f424d1 a negative time became a negative Python slice bound (counted from the END of the
 frames: `getSamples(-0.5, 0.5)` was empty, `deleteSegment(-0.5, 0.25)` made the recording LONGER, `insert(-0.25, x)`
 landed before the last samples) and QueryWav raised `wave.Error`.  Now every time addresses the nearest sample
 boundary of the recording: `sampleIndex_nonpos`, `sampleIndex_beyond`, and the theorems of section 4 carry no
@@ -1134,7 +1134,7 @@ theorem insert_negative_clamped :
     (exWav.insert ⟨-1, 4⟩ [77]).frames = [77, 1, 2, 3, 4, 5, 6, 7, 8] ∧
     (exWav.insert ⟨9, 1⟩ [77]).frames = [1, 2, 3, 4, 5, 6, 7, 8, 77] := by decide
 
-/-- **a start after the end — regression** (defect C16-3, repaired by 0a07868).  `deleteSegment(0.5, 0.25)` used to
+/-- **a start after the end — regression** (defect C16-3, repaired by 906b45b).  `deleteSegment(0.5, 0.25)` used to
 remove nothing and *duplicate* the samples between the two times (`frames[:4] + frames[2:]`: 8 samples before, 10
 after), `replaceSegment` likewise, `getFrames` was silently empty; all three now raise `ArgumentError` and the
 recording is untouched (the general statement: `reversed_rejected`) -/
@@ -1246,7 +1246,7 @@ theorem query_all (f : WavFile) (hr : 0 < f.rate) (hw : 0 < f.width) (hk : known
 /-- **`readFramesAtTime` (the reader behind QueryWav, extractSubwav) and the slice `Wav.getFramesRaw` behind `Wav.getFrames` return the same bytes for EVERY pair of
 times** — negative, beyond the end of the file, on or off the sample grid, end before start (both empty),
 ragged data chunk included — and `readFramesAtTime` never raises (`setpos` always gets a position inside the
-file).  No hypothesis.  (Since the repairs fedc16f — both round *both* ends — and 300c9d2 — both clamp the
+file).  No hypothesis.  (Since the repairs fedc16f — both round *both* ends — and 3f424d1 — both clamp the
 frame index into `[0, nframes]`; before, QueryWav raised `wave.Error` where Wav wrapped around.) -/
 theorem query_eq_wav (f : WavFile) (s e : QTime) :
     readFramesAtTime f s e = .ok (Wav.getFramesRaw ⟨f.width, f.rate, f.data⟩ s e) := by
